@@ -199,7 +199,6 @@ static_harness!(c03_t_gr_ds_def_n3g34_c_du, n=3, words=1, unwind=7, Sem::GR, Enc
 static_harness!(c03_t_gr_ds_def_n3g42_c_du, n=3, words=1, unwind=7, Sem::GR, Enc::Default, Kind::DS, Pres::Dup, cert=false, ANSWER, qs=[[2]], fault=0, codes=[42]);
 static_harness!(c03_t_gr_ds_def_n3g290_b_du, n=3, words=1, unwind=7, Sem::GR, Enc::Default, Kind::DS, Pres::Dup, cert=false, ANSWER, qs=[[1]], fault=0, codes=[290]);
 static_harness!(c03_t_gr_ds_def_n3g137_a_du, n=3, words=1, unwind=7, Sem::GR, Enc::Default, Kind::DS, Pres::Dup, cert=false, ANSWER, qs=[[0]], fault=0, codes=[137]);
-static_harness!(c04_x_co_dc_aux_n3g0_a_pl_cert, n=3, words=2, unwind=9, Sem::CO, Enc::AuxCo, Kind::DC, Pres::Plain, cert=true, CERT, qs=[[0]], fault=0, codes=[0]);
 static_harness!(c04_x_st_dc_def_n2g0_a_pl_cert, n=2, words=1, unwind=6, Sem::ST, Enc::Default, Kind::DC, Pres::Plain, cert=true, CERT, qs=[[0]], fault=0, codes=[0]);
 static_harness!(c04_q_st_dc_def_n2g2_a_pl_cert, n=2, words=1, unwind=6, Sem::ST, Enc::Default, Kind::DC, Pres::Plain, cert=true, CERT, qs=[[0]], fault=0, codes=[2]);
 static_harness!(c04_q_st_dc_def_n2g6_b_pl_cert, n=2, words=1, unwind=6, Sem::ST, Enc::Default, Kind::DC, Pres::Plain, cert=true, CERT, qs=[[1]], fault=0, codes=[6]);
